@@ -274,6 +274,12 @@ def make_doc(rng, stream, size):
             bad = dict(text="%s := 1" % rv, defs=[rv], uses=[]) if d else None
         if bad:
             pos = rng.randint(0, len(p))
+            if bad["defs"]:
+                # a redefinition goes AFTER the statement that defines the name: placed before it, it would become the
+                # definition (immutable) and turn the real one, and every later assignment to it, into the failing
+                # statements, which the per-statement failure flags (defined / undefined names only) do not describe
+                first = min(i for i, st in enumerate(p) if bad["defs"][0] in st["defs"])
+                pos = rng.randint(first + 1, len(p))
             p.insert(pos, bad)
             if rng.random() < 0.3:
                 # the error is raised inside the body of a user-defined function called from the fence (the function
